@@ -65,6 +65,16 @@ CHECKS = {
    text="TLC explores all histories (<=4/5 ops) over the argument palette {-1,0,n-1,n,n+5} x {0, existing, new frequency} checking the partitions and that standard channels only change `enabled`; seeded histories of up to 30 Add/Disable/Enable calls with arbitrary ints on all 14 bands are recorded with the full projection (every channel, five index lists, lookups) after every call and TLC steps the model alongside, demanding equality, the partitions on the observed lists, errors (never panics) for bad indices, matching lookups, the CFList rule per protocol version, and that CFLists, RX2/ping-slot/beacon frequencies and channels encode into join-accepts/MAC commands and decode back.",
    note="Trusted: TLC, ChannelPlan.tla, MACCommands/Frame tables, snapshot hook. Known finding: ISM2400 frequencies are not encodable outside NewChannelReq.",
    ref="3/C15"),
+ "C18": dict(
+   technique="TS003/TS004/TS005/TS006 command tables in TLA+ (AppLayer.tla) incl. status-dependent sizes and stream framing; TLC enumerates values/sequences (replayed on the four packages); TLC validates recorded random values, sequences and key derivations (in-TLA+ AES)",
+   text="TLC checks on the specification that every enumerated command value (all byte values of 1-byte payloads, patterns of longer ones, every status byte of the status-dependent ones) is well-formed, encodes to its size and that DecodeStream o Encode is the identity for all sequences of <=2/3 commands incl. zero-length firmware commands and payload-less CIDs; every such value/sequence and seeded random in-range values and sequences of 1..6 commands are marshalled, sized and unmarshalled by the real packages and compared (bytes, reported sizes, decoded sequence, no panic); McRootKey/McKEKey/McAppSKey/McNetSKey are recomputed with AES written in TLA+.",
+   note="Trusted: TLC, AppLayer.tla transcription, reflection projection (leaf field names), in-TLA+ AES.",
+   ref="3/C18"),
+ "C19": dict(
+   technique="TS004 parity matrix, systematic encoder and a GF(2) Gaussian-elimination decoder in TLA+ (FragFEC.tla); TLC explores every erasure pattern of small blocks symbolically; real encoder outputs validated and decoded by the specification",
+   text="TLC checks with symbolic fragments (sets under symmetric difference) for M<=7/10, redundancy<=4/6 and EVERY erasure pattern that a full-rank subset decodes to the original fragments; each pattern is replayed: the real Encode output restricted to the pattern is decoded by the specification's decoder and must give the data; seeded blocks (size 1..64, count 1..300 incl. powers of two and neighbours, redundancy 0..100) are checked for the systematic prefix, each parity fragment = XOR of the specification's matrix line, linearity on XORed inputs, unmodified input and errors (not panics) for zero/negative/non-dividing sizes.",
+   note="Trusted: TLC, FragFEC.tla (TS004 reference pseudo-code), projection.",
+   ref="3/C19"),
  "C20": dict(
    technique="GPS/UTC conversion with the published leap-second list, exact-rational Semtech airtime formula (BigNat) and EIRP table in TLA+; identities model-checked by TLC around every leap second; recorded conversions / full payload sweeps / EIRP results validated by TLC",
    text="TLC checks on the specification (every leap second, seconds -3..+3, sub-second values) that UTC->GPS->UTC is the identity, GPS->UTC->GPS is the identity outside inserted leap seconds, the mapping is strictly increasing and the offset steps at 00:00:00; the real conversions for instants dense around all 18 leap seconds (and non-leap June/December ends) and random in 1980..2100, their inverses and ordered pairs are validated against it; airtime is recorded as whole payload sweeps 0..255 for SF 5..12 x 5 bandwidths x CR x header x LDRO x preamble {0,8,64} (0..64 thorough): symbol counts must be exact, durations within the truncation tolerance of the exact rational formula, and non-decreasing; EIRP index/decoding for all half-integral powers 8..40, random finite float32 >= 8 and all 256 indices.",
